@@ -63,6 +63,7 @@ struct ep_state {
   size_t scan_slot; _Bool scan_alive;   /* ghost: slot whose heartbeat the coordinator tested last, and the outcome */
   _Bool v_just;              /* ghost: the skolem value EP.v was loaded as the pin of a slot found alive in this scan */
   _Bool last_global_acq;     /* ghost: the worker's last read of the global epoch was an acquire operation */
+  uint64_t head_upper;       /* ghost mirror of protected_lists_->upper_epoch_ (range of the chain's head node) */
   uint64_t new_node_upper;   /* ghost: range and successor of the list node allocated last */
   void *new_node_next;
 };
